@@ -4,6 +4,7 @@ import (
 	"crypto/sha256"
 	"encoding/hex"
 	"fmt"
+	"gopkg.in/yaml.v3"
 	"strconv"
 	"strings"
 	"sync"
@@ -182,9 +183,29 @@ func (w *World) Compatible(l int, size1 uint64, root1 []byte, size2 uint64, root
 // KnownLogs builds the real witness's log map the way omniwitness.Main does: through
 // omniwitness.LogConfig.AsLogMap (the per-log verifier and origin come from configuration keyed by log ID).
 func (w *World) KnownLogs() (map[string]witness.LogInfo, error) {
-	cfg := omniwitness.LogConfig{}
+	// The configuration is written as YAML and read back, the way the shipped logs.yaml reaches AsLogMap. Like the shipped file,
+	// entries may carry a PublicKeyType line; the scheme is taken from the key itself, so whatever the line says (or its absence)
+	// must make no difference - the knob varies with the key index.
+	var y strings.Builder
+	y.WriteString("Logs:\n")
 	for _, l := range w.Logs {
-		cfg.Logs = append(cfg.Logs, omniwitness.LogInfo{Origin: l.Origin, PublicKey: l.Key.VerifierString(), URL: "http://unused.example/", Feeder: omniwitness.None})
+		fmt.Fprintf(&y, "  - Origin: %s\n    URL: http://unused.example/\n", yamlQuote(l.Origin))
+		switch l.KeyIdx % 3 {
+		case 1:
+			y.WriteString("    PublicKeyType: ecdsa\n")
+		case 2:
+			y.WriteString("    PublicKeyType: ed25519\n")
+		}
+		fmt.Fprintf(&y, "    PublicKey: %s\n    Feeder: none\n", yamlQuote(l.Key.VerifierString()))
+	}
+	cfg := omniwitness.LogConfig{}
+	if err := yaml.Unmarshal([]byte(y.String()), &cfg); err != nil {
+		return nil, fmt.Errorf("harness configuration does not parse: %v", err)
+	}
+	for i, l := range w.Logs {
+		if i >= len(cfg.Logs) || cfg.Logs[i].Origin != l.Origin || cfg.Logs[i].PublicKey != l.Key.VerifierString() {
+			return nil, fmt.Errorf("harness configuration did not survive YAML: entry %d", i)
+		}
 	}
 	m, err := cfg.AsLogMap()
 	if err != nil {
@@ -216,6 +237,25 @@ func (w *World) Signers() ([]note.Signer, error) {
 		}
 	}
 	return out, nil
+}
+
+// yamlQuote writes s as a double-quoted YAML scalar.
+func yamlQuote(s string) string {
+	var b strings.Builder
+	b.WriteByte('"')
+	for _, c := range s {
+		switch {
+		case c == '"' || c == '\\':
+			b.WriteByte('\\')
+			b.WriteRune(c)
+		case c < 0x20 || c == 0x7f || c == 0x85 || c == 0xa0 || c == 0x2028 || c == 0x2029 || c == 0xfeff || c > 0xffff:
+			fmt.Fprintf(&b, "\\U%08X", c)
+		default:
+			b.WriteRune(c)
+		}
+	}
+	b.WriteByte('"')
+	return b.String()
 }
 
 // LogByID finds a configured log.
